@@ -925,15 +925,23 @@ class TextXMetaMetaModel:
     textX meta-language.  Used to treat all languages in a consistent way.
     """
 
-    def __init__(self):
+    def __init__(self, **kwargs):
+        """
+        Args:
+            kwargs: the keyword arguments of `metamodel_from_file` used to
+                build the meta-model of the textX language (`textx.tx`), e.g.
+                given to `metamodel_for_language('textx', debug=True)`.
+        """
         self._metamodel = None
+        self._metamodel_kwargs = kwargs
         self.model_param_defs = ModelParamDefinitions()
 
     @property
     def metamodel(self):
         if self._metamodel is None:
             self._metamodel = metamodel_from_file(
-                join(abspath(dirname(__file__)), "textx.tx")
+                join(abspath(dirname(__file__)), "textx.tx"),
+                **self._metamodel_kwargs,
             )
             # Regex match literal without the enclosing slashes.
             self._metamodel.register_obj_processors({"ReText": lambda text: text[1:-1]})
@@ -981,5 +989,5 @@ textx = LanguageDesc(
     name="textX",
     pattern="*.tx",
     description="A meta-language for language definition",
-    metamodel=lambda: TextXMetaMetaModel(),
+    metamodel=TextXMetaMetaModel,
 )
